@@ -114,11 +114,11 @@ static void body_run(tctx *t)
     if (m) b_dump(t, m);
     break; }
   case 2: {
-    /* instance parity 0: default layer directories below ROOT_PREFIX; parity 1: explicit lists (several entries each, so that a
+    /* both parities: explicit lists, different in length and order of the items (several entries each, so that a
      * non-reentrant tokenizer would be visible) */
     char opt[1400];
     if (t->instance & 1) snprintf(opt, sizeof opt, "JOIN_SAME_ENTRIES=1;PARSING_DIRS=%s/nonexistent:%s/usr/lib/proj:%s/run/proj:%s/etc/proj;CONFIG_DIRS=.none.d:.%s.d:.other.d", t->dir, t->dir, t->dir, t->dir, B_SFX[1]);
-    else snprintf(opt, sizeof opt, "JOIN_SAME_ENTRIES=1;ROOT_PREFIX=%s", t->dir);
+    else snprintf(opt, sizeof opt, "PARSING_DIRS=%s/usr/lib/proj:%s/run/proj:%s/etc/proj;JOIN_SAME_ENTRIES=1;CONFIG_DIRS=.%s.d:.unused.d", t->dir, t->dir, t->dir, B_SFX[0]);
     LIB(rc = econf_newKeyFile_with_options(&kf, opt)); sb_printf(&t->out, "options rc=%d\n", (int)rc);
     if (rc) break;
     LIB(rc = econf_readConfig(&kf, "proj", "/usr/lib", B_NAME[t->instance & 1], B_SFX[t->instance & 1], "=", "#")); sb_printf(&t->out, "readConfig rc=%d\n", (int)rc);
